@@ -11,11 +11,11 @@ package main
 import (
 	"encoding/binary"
 	"fmt"
-	"strings"
 	"time"
 
 	"github.com/postalsys/muti-metroo/internal/identity"
 	"github.com/postalsys/muti-metroo/internal/sleep"
+	"github.com/postalsys/muti-metroo/verifharness/scx"
 	"github.com/postalsys/muti-metroo/verifharness/vh"
 )
 
@@ -331,9 +331,5 @@ func main() {
 		}
 	}
 
-	var sb strings.Builder
-	sb.WriteString("From Coq Require Import List NArith ZArith.\nFrom MM Require Import Model.Window.\nImport ListNotations.\n")
-	sb.WriteString("Definition cases : list case := \n" + vh.CoqList(coq) + ".\n")
-	sb.WriteString("Definition M := Eval vm_compute in mismatches cases.\nPrint M.\n")
-	c.WriteCasesV("cases.v", sb.String())
+	c.WriteCasesV("cases.v", scx.CasesV("From Coq Require Import List NArith ZArith.\nFrom MM Require Import Model.Window.\nImport ListNotations.\n", "case", "mismatches_from", coq, 1500))
 }
